@@ -1,0 +1,69 @@
+//go:build verif
+
+// Contracts for package validation, checked by /verif/govc (comment-only file; compiled only
+// with the build tag "verif", which no build of the application uses).
+package validation
+
+// ---------------------------------------------------------------------------
+// ValidateLimit: complete, for every int.
+
+//@ func ValidateLimit
+//@   ensures[C14.limit-range] result1 == nil ==> 1 <= result0 && result0 <= 100
+//@   ensures[C14.limit-default] limit == 0 ==> result0 == constants.DefaultSearchLimit && result1 == nil
+//@   ensures[C14.limit-reject] limit < 0 || limit > 100 ==> result1 != nil
+//@   ensures[C14.limit-accept] 1 <= limit && limit <= 100 ==> result0 == limit && result1 == nil
+
+// ---------------------------------------------------------------------------
+// ValidateQuery: strings are an uninterpreted sort; the library is described by assumed
+// axioms over character-class predicates (each validated against the real library by the
+// bounded axiom check, see DESIGN.md 4.4).
+
+//@ pure func blankWS(s string) bool
+//@ pure func hasMeta(s string) bool
+//@ pure func hasCtrl(s string) bool
+//@ pure func hasCtrlNT(s string) bool
+//@ pure func normWS(s string) bool
+//@ pure func validUTF8(s string) bool
+//@ pure func rlen(s string) int
+//@ pure func stripCtrl(s string) string = strings.Map(ValidateQuery$1, s)
+//@ pure func fieldsJoin(s string) string = joinSeq(fieldsSeq(s), " ")
+//@ pure func accept(q string) bool = len(q) <= 1000 && !hasMeta(q) && !blankWS(stripCtrl(q))
+//@ pure func out(q string) string = fieldsJoin(stripCtrl(q))
+
+// the closure handed to strings.Map drops exactly the control characters other than \n and \t
+//@ func ValidateQuery$1
+//@   requires r >= 0
+//@   ensures[C14.strip-closure] (result == -1) <==> (unicode.IsControl(r) && r != 10 && r != 9)
+//@   ensures[C14.strip-closure-id] result != -1 ==> result == r
+
+//@ axiom trim-blank        forall s string :: (strings.TrimSpace(s) == "") <==> blankWS(s)
+//@ axiom re-meta           forall s string :: reMatches(regexp.MustCompile("[<>|&;$]"), s) <==> hasMeta(s)
+//@ axiom strip-no-ctrlnt   forall s string :: !hasCtrlNT(stripCtrl(s))
+//@ axiom strip-meta        forall s string :: hasMeta(stripCtrl(s)) <==> hasMeta(s)
+//@ axiom strip-rlen        forall s string :: rlen(stripCtrl(s)) <= rlen(s)
+//@ axiom strip-blank       forall s string :: blankWS(s) ==> blankWS(stripCtrl(s))
+//@ axiom fj-trim           forall s string :: fieldsJoin(strings.TrimSpace(s)) == fieldsJoin(s)
+//@ axiom fj-norm           forall s string :: normWS(fieldsJoin(s))
+//@ axiom fj-ctrl           forall s string :: !hasCtrlNT(s) ==> !hasCtrl(fieldsJoin(s))
+//@ axiom fj-meta           forall s string :: hasMeta(fieldsJoin(s)) <==> hasMeta(s)
+//@ axiom fj-rlen           forall s string :: rlen(fieldsJoin(s)) <= rlen(s)
+//@ axiom fj-empty          forall s string :: (fieldsJoin(s) == "") <==> blankWS(s)
+//@ axiom fj-blank          forall s string :: blankWS(fieldsJoin(s)) <==> blankWS(s)
+//@ axiom clean-fixpoint    forall s string :: normWS(s) && !hasCtrl(s) && validUTF8(s) ==> stripCtrl(s) == s && fieldsJoin(s) == s
+//@ axiom strip-valid       forall s string :: validUTF8(stripCtrl(s))
+//@ axiom fj-valid          forall s string :: validUTF8(s) ==> validUTF8(fieldsJoin(s))
+//@ axiom fj-blen           forall s string :: len(fieldsJoin(s)) <= len(s)
+//@ axiom strip-blen-utf8   forall s string :: validUTF8(s) ==> len(stripCtrl(s)) <= len(s)
+
+//@ func ValidateQuery
+//@   ensures[C14.accept-iff] (result1 == nil) <==> accept(query)
+//@   ensures[C14.output] result1 == nil ==> result0 == out(query)
+//@   ensures[C14.clean-output] result1 == nil ==> !hasCtrl(result0) && normWS(result0) && !hasMeta(result0) && rlen(result0) <= rlen(query) && result0 != ""
+//@   ensures[C14.reject-empty-result] result1 != nil ==> result0 == ""
+//@ loop 2
+//@   invariant fresh(invalidChars)
+
+// Idempotence, as a lemma over the two postconditions above (accept, out).
+//@ lemma C14.idempotent-valid-utf8 forall q string :: accept(q) && validUTF8(q) ==> accept(out(q)) && out(out(q)) == out(q)
+//@ lemma C14.idempotent-output     forall q string :: accept(q) ==> out(out(q)) == out(q)
+//@ lemma C14.idempotent-all-bytes  forall q string :: accept(q) ==> accept(out(q)) && out(out(q)) == out(q)
